@@ -100,7 +100,7 @@ func runSched(v int, desc string, progs []string, pick func(enabled []int, cur i
 	for i, p := range progs {
 		i, p := i, p
 		api.spawn(fmt.Sprintf("c%d", i), func() {
-			local := &scriptEnv{v: env.v, handles: []handle{env.handles[0]}, src: env.src}
+			local := &scriptEnv{v: env.v, handles: []handle{env.handles[0]}, src: env.src, shared: true}
 			if separate {
 				if own, e2 := newScriptNumber(v, d); e2 == "" {
 					hook(own.src)
